@@ -42,6 +42,7 @@ def stop_scripts(rnd, n_extra):
                 out.append({"id": "dd-stop-%s-%d-%d" % (name, tmo, stop_after), "datadog": True, "ddTimeoutMs": tmo, "keys": 2, "memWindow": 2 if stop_after else 0,
                             "gens": [{"upstream": ups, "clients": [{"n": 40, "pauseEvery": 5, "pauseMs": 32, "delayMs": 0}], "stopAfterMs": stop_after},
                                      {"upstream": [], "clients": [{"n": 1, "pauseEvery": 0, "pauseMs": 0, "delayMs": 0}], "stopAfterMs": 10, "drain": True}]})
+    out += A.big_stories()      # the sender blocked in the middle of a write at the stop
     for j in range(n_extra):
         out.append(A.random_script("rnd%d" % j, rnd))
     return out
@@ -78,7 +79,7 @@ def run(chk):
     # end to end: every upstream state x load x moment of the stop
     scripts = stop_scripts(rnd, 1000 if thorough else 0)
     if not thorough:
-        scripts = [s for k, s in enumerate(scripts) if k % 2 == chk.seed % 2 or "refusing" in s["id"] or "silent" in s["id"]]
+        scripts = [s for k, s in enumerate(scripts) if k % 2 == chk.seed % 2 or "refusing" in s["id"] or "silent" in s["id"] or "blocked" in s["id"]]
     n3, e3, rej3, consts = A.run_scripts(chk, scripts, FLAGS, "c18", stop_bound_ms=4000)
     A.handle(chk, rej3, FLAGS, "c18", consts)
     cov.update({"traces_validated_against_impl": n1 + n2 + n3, "trace_events": e1 + e2 + e3, "evaluations": n1 + n2 + n3,
@@ -86,7 +87,7 @@ def run(chk):
                 "max_forwarder_stop_to_finished_ms": max(stop_ms + [0]), "forwarder_or_buffer_hung_runs": hung,
                 "rule": "forwarding client: stop at every trace position of TLC-derived and random fault scripts (a run that does not finish is a HUNG event no action explains); hybrid buffer: Destroy at scripted positions; end to end: upstream state at the stop {healthy, refusing, resetting, accepting but never answering, late ACK} x load {idle, open chunk, full 2-chunk memory window, pending ACKs} x stop 0/25/120 ms after the last client closed; bound 4 s with timeouts of 20-400 ms; after every stop every record read is acknowledged or in a chunk file",
                 "samples": [scripts[0]]})
-    chk.assumptions += ["'bounded time' is decided as: no spec step after the stop waits for a timer (StopTerminates without timer fairness) and, on the code, a generous wall-clock bound on scaled timeouts; 'blocked mid-write' is provoked at the connection level (drv/fc: a peer that stops reading, 32 MB chunk), not end to end",
+    chk.assumptions += ["'bounded time' is decided as: no spec step after the stop waits for a timer (StopTerminates without timer fairness) and, on the code, a generous wall-clock bound on scaled timeouts; 'blocked mid-write' is provoked at the connection level (drv/fc: a peer that stops reading, 32 MB chunk) and end to end (upstream that never reads, 12 MB of records, wide ACK window: the counters show no completed send at the stop)",
                         "a rejection is a violation only if reproduced on a re-run"]
 
 
